@@ -58,9 +58,13 @@ def main():
             cases.append({"kind": "opmode", "masks": masks[i:i + 6], "modes": MODES, "transport": "sdo"})
             cases.append({"kind": "opmode", "masks": masks[i:i + 6], "modes": MODES, "transport": "pdo",
                           "seed": rng.randrange(1 << 30)})
-    results = run_cases("harness.drv_p402:run_case", cases, jobs=args.jobs, timeout=180)
-    if any(r.get("hang") for r in results):
-        raise RuntimeError("driver hang")
+    results = run_cases("harness.drv_p402:run_case", cases, jobs=args.jobs, timeout=60)
+    for c, r in zip(cases, results):
+        if r.get("hang"):       # not even the step caps of the driver ended the call
+            v.report({"clause": "the call did not return (hang)", "kind": c.get("kind")},
+                     f"the call did not return within 60 s [case={str(c)[:300]}]", {"case": c})
+            r.clear()
+            r["ev"] = []
     val = tlc.validate_traces("Trace_P402", results, cfg="Trace.cfg", jobs=args.jobs)
     for rej in val.rejects:
         ev = rej.event or {}
@@ -77,7 +81,7 @@ def main():
         v.report({"clause": why, "low7": r["sw"] & 0x6F}, f"{why}: 0x{r['sw']:04X} -> {r['state']}", {"row": r})
     outcome = {}
     for c, r in zip(cases, results):
-        if c["kind"] == "state":
+        if c["kind"] == "state" and r["ev"]:
             k = r["ev"][-1]["e"] + (":" + r["ev"][-1].get("cls", "") if r["ev"][-1]["e"] == "raise" else "")
             outcome[k] = outcome.get(k, 0) + 1
     cov = {"states": mc.distinct, "transitions": mc.generated, "traces_validated_against_impl": val.traces,
